@@ -164,10 +164,19 @@ func (p cfgPath) Has(cfg *Config, opt *options) (bool, Error) {
 func (p cfgPath) GetValue(cfg *Config, opt *options) (value, Error) {
 	fields := p.fields
 
+	// a reference met on the way is evaluated completely before the walk goes on:
+	// afterwards it is no longer being evaluated
+	get := func(f field, cur value) (value, Error) {
+		active := opt.activeFields
+		opt.activeFields = newFieldSet(active)
+		defer func() { opt.activeFields = active }()
+		return f.GetValue(opt, cur)
+	}
+
 	cur := value(cfgSub{cfg})
 	for ; len(fields) > 1; fields = fields[1:] {
 		field := fields[0]
-		next, err := field.GetValue(opt, cur)
+		next, err := get(field, cur)
 		if err != nil {
 			return nil, err
 		}
@@ -180,7 +189,7 @@ func (p cfgPath) GetValue(cfg *Config, opt *options) (value, Error) {
 	}
 
 	field := fields[0]
-	v, err := field.GetValue(opt, cur)
+	v, err := get(field, cur)
 	if err != nil {
 		return nil, raiseMissing(cfg, field.String())
 	}
